@@ -220,3 +220,60 @@ func ZZVerifC05Names() {
 	}
 	nd.Reach("C05/names-end")
 }
+
+// zzNames lists the name tree (names and kinds, not contents) below dir.
+func zzNames(fs filesystem.Filespace, dir string, depth int) string {
+	l, err := fs.ReadDir(dir)
+	if err != nil {
+		return "!"
+	}
+	out := ""
+	for _, inf := range l {
+		out += inf.Name()
+		if inf.IsDir() {
+			out += "/"
+			if depth > 0 {
+				out += "(" + zzNames(fs, dir+"/"+inf.Name(), depth-1) + ")"
+			}
+		}
+		out += " "
+	}
+	return out
+}
+
+// ZZVerifC05NamesTwin: every name-space operation (the three copies, remove,
+// recursive remove, mkdir) with symbolic source and destination behaves on
+// the encrypted filespace exactly as on a plain twin holding the same names:
+// same verdict (error or not) and the same resulting name tree.
+func ZZVerifC05NamesTwin() {
+	base, _ := memfs.NewFilespace()
+	twin, _ := memfs.NewFilespace()
+	c, _ := zzCipher(nd.Choose("cipher", 2))
+	enc := zzEnc(base, []byte("s"), []byte("t"), false, c)
+	for _, fs := range []filesystem.Filespace{enc, twin} {
+		nd.Assume(fs.WriteFile("d/f", []byte("x"), filesystem.DefaultUnixFileMode) == nil)
+		nd.Assume(fs.MkdirAll("e", filesystem.DefaultUnixDirMode) == nil)
+		nd.Assume(fs.WriteFile("g", []byte("y"), filesystem.DefaultUnixFileMode) == nil)
+	}
+	paths := []string{"d", "d/f", "e", "g", "n", "d/n", "e/n"}
+	src := paths[nd.Choose("src", len(paths))]
+	dst := paths[nd.Choose("dst", len(paths))]
+	var e1, e2 error
+	switch nd.IntRange("op", 0, 5) {
+	case 0:
+		e1, e2 = enc.CopyFile(src, dst), twin.CopyFile(src, dst)
+	case 1:
+		e1, e2 = enc.CopyDirectory(src, dst), twin.CopyDirectory(src, dst)
+	case 2:
+		e1, e2 = enc.Copy(src, dst), twin.Copy(src, dst)
+	case 3:
+		e1, e2 = enc.Remove(src), twin.Remove(src)
+	case 4:
+		e1, e2 = enc.RemoveAll(src), twin.RemoveAll(src)
+	case 5:
+		e1, e2 = enc.MkdirAll(src, filesystem.DefaultUnixDirMode), twin.MkdirAll(src, filesystem.DefaultUnixDirMode)
+	}
+	nd.Assert((e1 == nil) == (e2 == nil), "C05/names-twin-same-verdict")
+	nd.Assert(zzNames(enc, ".", 2) == zzNames(twin, ".", 2), "C05/names-twin-same-tree")
+	nd.Reach("C05/names-twin-end")
+}
